@@ -47,6 +47,7 @@ let () =
     | "own" -> M_own.run_line
     | "race" -> M_race.run_line
     | "aobs" -> M_aobs.run_line
+    | "drain" -> M_drain.run_line
     | "e2e" -> (fun _ -> print_string "-\n")   (* oracle-only stream: see DESIGN.md, mode e2e *)
     | _ -> failwith ("unknown mode " ^ mode) in
   iter_lines stdin (fun line -> if line <> "" then f line)
